@@ -133,7 +133,7 @@ def bit_identity(run, n, count):
             g.set_known_values([v[c] for c in mini], [co.Coalition(c) for c in mini])
         order = [c for c in range(1 << n) if c not in mini]
         run.rng.shuffle(order)
-        for c in [None] + order[: 6 if n > 4 else len(order)]:
+        for c in [None] + order[: (6 if n < 7 else 4) if n > 4 else len(order)]:
             if c is not None:
                 ga.reveal_value(v[c], co.Coalition(c))
                 gb.reveal_value(v[c], co.Coalition(c))
@@ -168,8 +168,8 @@ def main(run):
     run.discharge()
     memo_check(run, pkg, ns)
     registry_check(run, pkg)
-    for n in ((2, 3, 4, 5, 6) if run.tier == "quick" else (2, 3, 4, 5, 6, 7, 8)):
-        bit_identity(run, n, (8 if n <= 5 else 3) if run.tier == "quick" else (40 if n <= 6 else 4))
+    for n in ((2, 3, 4, 5, 6, 7) if run.tier == "quick" else (2, 3, 4, 5, 6, 7, 8)):
+        bit_identity(run, n, (8 if n <= 5 else 3 if n == 6 else 2) if run.tier == "quick" else (40 if n <= 6 else 4))
     return run.finish(
         explanation="Relational obligation: both computers run on the same symbolic pre-state (every knowledge set, "
                     "independent stale rows, no class assumption) end in equal tables, per n; repeated invocation "
